@@ -464,12 +464,24 @@ func vfC25EventName(ev int) string {
 	switch {
 	case ev < 3:
 		return "present-P" + strconv.Itoa(ev+1) + "(" + vfC25StampNames[ev] + ")"
+	case ev == vfC25EvBadFresh:
+		return "present-bad-MAC(fresh nonce, ts=now)"
+	case ev == vfC25EvBadReuse:
+		return "present-bad-MAC(P1's nonce, ts=now)"
 	default:
 		return "advance+" + strconv.FormatInt(vfC25Advances[ev-3], 10)
 	}
 }
 
 var vfC25Advances = []int64{0, vfC25Skew / 2, vfC25Skew, vfC25Skew + 1}
+
+// Forged presentations: well-formed, configured kid, in-window timestamp, MAC made with a
+// secret the worker does not know. They must be refused and must not count as admissions.
+const (
+	vfC25EvBadFresh = 7 // a nonce never seen before
+	vfC25EvBadReuse = 8 // the nonce of the genuine proof P1
+	vfC25MaxForged  = 3 // forged presentations per history (bound of the space)
+)
 
 func vfC25History(t *testing.T, capName string, capacity int, depth int) {
 	k1 := vfC25Secrets["k1"]
@@ -533,8 +545,40 @@ func vfC25History(t *testing.T, capName string, capacity int, depth int) {
 		var model [3]pstate
 		var accLog []string // acceptance sequence: the only thing that changes the gate's state
 
+		forged := 0
 		for i, ev := range hist {
 			last := i == len(hist)-1
+			if ev == vfC25EvBadFresh || ev == vfC25EvBadReuse {
+				forged++
+				if forged > vfC25MaxForged {
+					return "", false
+				}
+				nonce := vfC25Nonce("forged-" + strconv.Itoa(i))
+				tag := "F"
+				if ev == vfC25EvBadReuse {
+					nonce, tag = vfC25Nonce("hist-0"), "R"
+				}
+				bad, merr := MintProof(vfC25ForeignSecret, "k1", vfC25Origin, clk, nonce)
+				if merr != nil {
+					panic(merr)
+				}
+				before := inner
+				_, gerr := gate(req(bad))
+				if last {
+					switch {
+					case gerr == nil:
+						x.Failf("C25:history:bad-mac-accepted:cap="+capName, "a proof whose MAC was made with an unknown secret passed the gate at T0%+d", clk-vfC25T0)
+					case inner != before:
+						x.Failf("C25:history:inner-called-on-refusal:cap="+capName, "refused forged presentation ran the inner authenticator")
+					case gerr.Error() != canonErr.Error():
+						x.Failf("C25:history:refusal-differs:cap="+capName, "refusal %q differs from the no-proof refusal %q", gerr, canonErr)
+					}
+				}
+				// not an admission: the replay model is untouched. It is part of the state key
+				// (a gate that remembered the forged nonce would be in a different state).
+				accLog = append(accLog, fmt.Sprintf("%s@%+d", tag, clk-vfC25T0))
+				continue
+			}
 			if ev >= 3 {
 				if clk-vfC25T0 > 2*vfC25Skew+1 {
 					// every proof is past its window for good: the clock is not advanced further (bound of the space)
@@ -564,7 +608,7 @@ func vfC25History(t *testing.T, capName string, capacity int, depth int) {
 				}
 				if acceptedNow && inWindow && model[p].accepted && len(model[p].others) < effCap {
 					x.Failf("C25:history:replay-accepted:stamp="+vfC25StampNames[p]+":cap="+capName,
-						"P%d (ts=T0%+d) was accepted earlier and is accepted AGAIN at T0%+d while its timestamp is still inside the window (|now-ts|=%d <= skew=%d); only %d other distinct proof(s) were admitted since (capacity %d). acceptances so far: %v",
+						"P%d (ts=T0%+d) was accepted earlier and is accepted AGAIN at T0%+d while its timestamp is still inside the window (|now-ts|=%d <= skew=%d); only %d other distinct proof(s) were admitted since (capacity %d). log so far (P=admitted, F/R=forged, refused): %v",
 						p+1, stamps[p]-vfC25T0, clk-vfC25T0, vfC25Abs(age), vfC25Skew, len(model[p].others), effCap, accLog)
 				}
 			}
@@ -579,15 +623,17 @@ func vfC25History(t *testing.T, capName string, capacity int, depth int) {
 			}
 		}
 		// Canonical key. The gate's only mutable state is its nonce cache, which
-		// lives in a closure and cannot be read; it changes only when a proof is
-		// admitted, so (clock, ordered acceptance log) identifies the state.
+		// lives in a closure and cannot be read. A correct gate changes it only when a
+		// proof is admitted; forged presentations are logged too (F/R entries) so that a
+		// gate which remembers a forged nonce is not merged with one that does not.
+		// Refused presentations of the genuine proofs are not part of the key.
 		return fmt.Sprintf("clk=%+d acc=%s", clk-vfC25T0, strings.Join(accLog, ",")), true
 	}
 
 	venum.BFS(t, venum.BFSCfg{
 		Name:      "history-cap" + capName,
 		MaxDepth:  depth,
-		NEvents:   3 + len(vfC25Advances),
+		NEvents:   3 + len(vfC25Advances) + 2,
 		Step:      step,
 		EventName: vfC25EventName,
 	})
